@@ -196,9 +196,8 @@ def build(fam, impl, spec):
         if fam[0] != fam[1]:
             return list(keys), None
         c = F.cls(fam, 'BTree', impl)()
-        dom = [F.dk(fam, x) for x in F.domain(fam, 'int') if x is not None]
         for i, k in enumerate(keys):
-            c[dom[i % len(dom)]] = k
+            c[1000 + i] = k         # one entry per element (II, LL, UU, QQ, OO: any small int is a key)
         return c.values(), None
     c = F.cls(fam, kind, impl)()
     vals = {}
